@@ -29,7 +29,7 @@ fn c08_depth_limit_slice() {
         }
     }
     kani::cover!(limited && has_parent && new_height == l, "depth reaches L exactly");
-    kani::cover!(limited && has_parent && new_height + 1 == l, "one below the limit");
+    kani::cover!(limited && has_parent && l > 0 && new_height == l - 1, "one below the limit");
     kani::cover!(!limited && has_parent, "unlimited");
 }
 
